@@ -1,7 +1,8 @@
 (* Theorems about the octree renderer DualContouringV1 (dc3v1.go) over the regenerated tables:
-   v1_tables_geometry, the sign-free traversal and its reflection check for depth <= 3,
-   the equality of the modelled traversal with it (every depth), v1_process_edge_rule,
-   and v1_traversal (depth <= 3, every sign assignment: the V1 mesh is the dual mesh). *)
+   v1_tables_geometry, the sign-free traversal (cvis/fvis/evis), the equality of the modelled
+   traversal with it (every depth), v1_process_edge_rule, and v1_traversal_if_visits (the V1 mesh is
+   the dual mesh once the visit list is known to enumerate every interior minimal edge once; that
+   fact is proved for every depth in Algo/DCVisits.v, which states v1_traversal). *)
 From Coq Require Import List ZArith NArith Lia Bool Permutation.
 From Sdfx Require Import Generated.DCTables.
 From Sdfx Require Import Algo.DualGrid.
@@ -139,24 +140,8 @@ Definition expected_visits (n : cell) : list visit :=
 
 Definition visit_eq_dec (v w : visit) : {v = w} + {v <> w}.
 Proof. decide equality; [apply (list_eq_dec cell_eq_dec) | apply Z.eq_dec]. Defined.
-Definition perm_check (l m : list visit) : bool :=
-  forallb (fun v => Nat.eqb (count_occ visit_eq_dec l v) (count_occ visit_eq_dec m v)) (l ++ m).
-
-Lemma perm_check_sound l m : perm_check l m = true -> Permutation l m.
-Proof.
-  intros H. apply (Permutation_count_occ visit_eq_dec). intros v.
-  unfold perm_check in H. rewrite forallb_forall in H.
-  destruct (in_dec visit_eq_dec v (l ++ m)) as [Hin|Hin].
-  - apply Nat.eqb_eq. now apply H.
-  - assert (~ In v l /\ ~ In v m) as [H1 H2] by (split; intro; apply Hin, in_or_app; tauto).
-    apply (count_occ_not_In visit_eq_dec) in H1, H2. congruence.
-Qed.
 
 Definition cube (d : nat) : cell := (pow2 d, pow2 d, pow2 d).
-
-Lemma v1_visits_depth_le_3 :
-  forallb (fun d => perm_check (cvis d (0, 0, 0)) (expected_visits (cube d))) [1%nat; 2%nat; 3%nat] = true.
-Proof. vm_compute. reflexivity. Qed.
 
 (* ------------------------------------------------------------------ the modelled traversal is the sign-free
    traversal followed by the per-edge emission (every depth, every leaf table) *)
@@ -321,7 +306,7 @@ Proof.
     + apply Permutation_refl'. tri_eq.
 Qed.
 
-(* ------------------------------------------------------------------ V1 = dual mesh, depth <= 3 *)
+(* ------------------------------------------------------------------ V1 = dual mesh *)
 Lemma all_equal_false_of_diff (l : list bool) i j : (i < length l)%nat -> (j < length l)%nat ->
   nth i l false <> nth j l false -> all_equal l = false.
 Proof.
@@ -381,26 +366,9 @@ Proof.
   apply flat_map_perm_ext. intros p _. apply emit_edge.
 Qed.
 
-(* THE V1 TRAVERSAL, depth <= 3 (2, 4 or 8 cells per axis), EVERY sign assignment:
-   the index triangles of contourCellProc are the dual mesh, as a multiset.
-   [partial] for general depth the missing fact is
-       forall d, Permutation (cvis d (0,0,0)) (expected_visits (cube d))
-   (checked here by evaluation for d = 1, 2, 3); everything else holds for every depth. *)
-Theorem v1_traversal_partial d s : In d [1%nat; 2%nat; 3%nat] ->
-  Permutation (v1_mesh s d) (dual_mesh (cube d) s).
-Proof.
-  intros Hd. unfold v1_mesh. rewrite v1_mesh_is_visits.
-  eapply perm_trans; [|apply expected_is_dual].
-  apply perm_flat_map, perm_check_sound.
-  pose proof v1_visits_depth_le_3 as V. rewrite forallb_forall in V. now apply V.
-Qed.
-
-Corollary v1_mesh_closed d s : In d [1%nat; 2%nat; 3%nat] -> boundary_outside (cube d) s -> closed (v1_mesh s d).
-Proof.
-  intros Hd Hb. eapply closed_perm; [apply Permutation_sym, v1_traversal_partial, Hd | now apply dual_mesh_closed].
-Qed.
-
-(* the same statement for every depth, conditional on the one missing fact *)
+(* THE V1 TRAVERSAL, every depth, EVERY sign assignment: the index triangles of contourCellProc are
+   the dual mesh, as a multiset, provided the sign-free visit list enumerates every interior minimal
+   edge of the 2^d lattice once (Algo/DCVisits.v: v1_visits, for every d). *)
 Theorem v1_traversal_if_visits d s :
   Permutation (cvis d (0, 0, 0)) (expected_visits (cube d)) -> Permutation (v1_mesh s d) (dual_mesh (cube d) s).
 Proof.
